@@ -217,6 +217,13 @@ def rule_rest(ck, lib):
                         for pn in hir.walk_pat(st_["pat"]) if hasattr(hir, "walk_pat") else [st_["pat"]]:
                             if pn.get("k") == "Bind" and pn.get("id") in allv:
                                 tys[pn["id"]] = pn.get("ty", "?")
+        # a field of a private struct that holds the offsets: typed by what it is initialised with at loop entry
+        for site_, info_ in pps.loops.items():
+            for st_ in info_["entry"]:
+                for i_ in allv:
+                    v_ = st_.env.get(i_)
+                    if i_ not in tys and "." in i_.rsplit("::", 1)[-1] and isinstance(v_, tuple) and v_[:2] == ("lit", "int"):
+                        tys[i_] = "usize"
         import re
         odd = sorted("%s: %s" % (allv[i], tys.get(i, "?")) for i in allv
                      if not (tys.get(i) == "usize" or re.match(r"\[u8; \w+\]$", tys.get(i, "")) or re.match(r"heapless::(vec::)?Vec<u8, \w+>$", tys.get(i, ""))))
